@@ -39,7 +39,9 @@ fn catalog() -> Arc<Cat> {
     for v in [1u32, 2, 3, 4, 60] { soa.extend_from_slice(&v.to_be_bytes()); }
     zone.add(&apex, Type::SOA, Class::IN, Ttl::from(60), soa.as_slice().try_into().unwrap()).unwrap();
     zone.add(&apex, Type::NS, Class::IN, Ttl::from(60), w("ns.example.test.").as_slice().try_into().unwrap()).unwrap();
-    for (n, a) in [("www.example.test.", 4u8), ("ns.example.test.", 9), ("*.wild.example.test.", 5), ("*.w2.example.test.", 6), ("mail.example.test.", 7)] {
+    // (a_b and a<DEL>b: two names that differ only in bit 5 of an octet that is not a letter - two streams)
+    for (n, a) in [("www.example.test.", 4u8), ("ns.example.test.", 9), ("*.wild.example.test.", 5), ("*.w2.example.test.", 6), ("mail.example.test.", 7),
+                   ("a_b.example.test.", 10), ("a\\127b.example.test.", 11), ("host1.example.test.", 12), ("host\\017.example.test.", 13)] {
         zone.add(&nm(n), Type::A, Class::IN, Ttl::from(60), (&[192u8, 0, 2, a][..]).try_into().unwrap()).unwrap();
     }
     // a wildcard whose TXT RRset does not fit a 512-octet response: the truncated answer still belongs to the wildcard's stream
@@ -66,6 +68,10 @@ fn qpool() -> Vec<(&'static str, &'static str)> {
         ("a.w2.example.test.", "*.w2.example.test."),
         ("a.fat.example.test.", "*.fat.example.test."),
         ("b.fat.example.test.", "*.fat.example.test."),
+        ("a_b.example.test.", "a_b.example.test."),
+        ("a\\127b.example.test.", "a\\127b.example.test."),
+        ("host1.example.test.", "host1.example.test."),
+        ("host\\017.example.test.", "host\\017.example.test."),
         ("txt.example.test.", "txt.example.test."),      // NODATA for type A: NOERROR
         ("mail.example.test.", "mail.example.test."),
         ("example.test.", "example.test."),
@@ -206,8 +212,10 @@ fn session(r: &mut StdRng, cat: &Arc<Cat>, log: &Arc<Mutex<Vec<Value>>>, out: &m
             m[2] |= *[1u8, 2, 4, 5, 15].choose(r).unwrap() << 3; // non-QUERY opcode: never limited
         }
         let qname = if single_stream && r.gen_bool(0.3) { rand_case(r, qn) } else { qn.to_string() };
-        m.extend_from_slice(&w(&qname));
-        let qtype: u16 = if qn.contains(".fat.") && r.gen_bool(0.75) { 16 } else if r.gen_bool(0.85) { 1 } else { *[16u16, 255, 28].choose(r).unwrap() };
+        m.extend_from_slice(nm(&qname).wire_repr());
+        // (under a wildcard: a quarter of the queries ask for ANY - the answer is synthesised from the same wildcard)
+        let qtype: u16 = if qn.contains(".fat.") && r.gen_bool(0.75) { 16 } else if (qn.contains(".wild.") || qn.contains(".w2.")) && r.gen_bool(0.25) { 255 }
+                         else if r.gen_bool(0.85) { 1 } else { *[16u16, 255, 28].choose(r).unwrap() };
         m.extend_from_slice(&qtype.to_be_bytes());
         m.extend_from_slice(&[0, 1]);
         if r.gen_bool(0.2) {
@@ -216,7 +224,7 @@ fn session(r: &mut StdRng, cat: &Arc<Cat>, log: &Arc<Mutex<Vec<Value>>>, out: &m
             push_additional(&mut m, &opt_rr(1232, version << 16, &[0], &[]));
         }
         log.lock().unwrap().clear();
-        let mut buf = vec![0u8; 65535];
+        let mut buf = vec![0xFFu8; 65535];
         let t0 = start.elapsed().as_micros() as u64;
         let res = catch_unwind(AssertUnwindSafe(|| server.handle_message(&m, ReceivedInfo::new(src, transport), &mut buf)));
         let t1 = start.elapsed().as_micros() as u64;
@@ -238,7 +246,7 @@ fn session(r: &mut StdRng, cat: &Arc<Cat>, log: &Arc<Mutex<Vec<Value>>>, out: &m
         rec["transport"] = json!(tname(transport));
         rec["src"] = json!(src_octets(src));
         rec["direct"] = json!(direct);
-        rec["stream"] = json!(if stream.is_empty() { Vec::new() } else { w(stream) });
+        rec["stream"] = json!(if stream.is_empty() { Vec::new() } else { nm(stream).wire_repr().to_vec() });
         rec["hook"] = json!(hook);
         let panicked = rec["out"] == "panic";
         out.emit(rec);
@@ -268,7 +276,7 @@ fn replay_session(r: &mut StdRng, cat: &Arc<Cat>, log: &Arc<Mutex<Vec<Value>>>, 
         m.extend_from_slice(&w("www.example.test."));
         m.extend_from_slice(&[0, 1, 0, 1]);
         log.lock().unwrap().clear();
-        let mut buf = vec![0u8; 65535];
+        let mut buf = vec![0xFFu8; 65535];
         let t0 = start.elapsed().as_micros() as u64;
         let res = catch_unwind(AssertUnwindSafe(|| server.handle_message(&m, ReceivedInfo::new(src, Transport::Udp), &mut buf)));
         let t1 = start.elapsed().as_micros() as u64;
@@ -309,9 +317,14 @@ fn burst(r: &mut StdRng, cat: &Arc<Cat>, log: &Arc<Mutex<Vec<Value>>>, out: &mut
     params.set_slip(*[0usize, 1, 2].choose(r).unwrap());
     let mut server = Server::new(cat.clone());
     server.set_rrl_params(Some(params));
+    // four bursts in ten hit a limiter whose buckets were all last touched two seconds ago (a server that has been
+    // up for a while): the stream's own clock starts with its first response, not with the bucket's past
+    let aged = r.gen_bool(0.4);
+    if aged { server.verif_rrl_shift(Duration::from_secs(2)); }
     let server = Arc::new(server);
     log.lock().unwrap().clear();
     let barrier = Arc::new(Barrier::new(nthreads));
+    let wall = Instant::now();
     // a spin gate after the barrier: the threads' first requests (the ones that create the stream's entry) start
     // within a few hundred nanoseconds of each other instead of in wake-up order
     let gate = Arc::new(std::sync::atomic::AtomicUsize::new(0));
@@ -348,8 +361,9 @@ fn burst(r: &mut StdRng, cat: &Arc<Cat>, log: &Arc<Mutex<Vec<Value>>>, out: &mut
         })
         .collect();
     for h in handles { h.join().unwrap(); }
+    let wall_ms = wall.elapsed().as_millis() as u64;
     let mut evs = log.lock().unwrap().clone();
     evs.sort_by_key(|e| e["seq"].as_u64().unwrap());
     let s = totals.lock().unwrap();
-    out.emit(json!({"ev": "Burst", "rate": rate, "window": window, "threads": nthreads, "n": nthreads * per, "full": s.0, "limited": s.1, "panics": s.2, "events": evs}));
+    out.emit(json!({"ev": "Burst", "rate": rate, "window": window, "threads": nthreads, "n": nthreads * per, "full": s.0, "limited": s.1, "panics": s.2, "aged": aged, "wall_ms": wall_ms, "events": evs}));
 }
